@@ -81,6 +81,8 @@ def headers : Nat → HeaderAcc → Bytes → Option (HeaderAcc × Bytes)
       | none => none
       | some (acc', r) => (consume CRLF r).bind fun r => headers fuel acc' r
 
+def TEXT_PLAIN : Bytes := [116, 101, 120, 116, 47, 112, 108, 97, 105, 110]
+
 /-- the part loop of `Multipart::parse` after the boundary line has been read -/
 def parts : Nat → Bytes → Bytes → List Part → Option (List Part)
   | 0, _, _, _ => none
@@ -96,7 +98,7 @@ def parts : Nat → Bytes → Bytes → List Part → Option (List Part)
         | some r'' =>
           match h.filename with
           | none => if Http.validUtf8 content then parts fuel boundary r'' (acc ++ [.text h.name content]) else none
-          | some fnm => parts fuel boundary r'' (acc ++ [.file h.name ⟨fnm, h.mimetype, content⟩])
+          | some fnm => parts fuel boundary r'' (acc ++ [.file h.name ⟨fnm, if h.mimetype.isEmpty then TEXT_PLAIN else h.mimetype, content⟩])          -- a part without Content-Type is text/plain (RFC 7578 4.4)
     else some acc          -- `--` (the end) or anything else ends the loop
 
 def parse (input : Bytes) : Option (List Part) :=
@@ -113,16 +115,24 @@ deriving Repr
 /-- what a browser sends for a file input with no file chosen: no file name, no content -/
 def unselected (f : FileV) : Bool := f.filename.isEmpty && f.content.isEmpty
 
-/-- `Multipart::next`: pops from the back; consecutive file parts of one name are grouped; an unselected file input is no file, wherever it stands
+/-- a file part of that name -/
+def sameFile (n : Bytes) : Part → Bool
+  | .file n' _ => n' == n
+  | _ => false
+def fileOf : Part → Option FileV
+  | .file _ f => some f
+  | _ => none
+
+/-- `Multipart::next`: pops from the back; the file parts of one name are grouped, adjacent or not; an unselected file input is no file, wherever it stands
     among the files of its name (since fix fix 6d7aeee; before it only a group that BEGAN with one, from the back, was empty, and `[file, unselected]` was refused) -/
 def next (ps : List Part) : Option (Bytes × Item × List Part) :=
   match ps.reverse with
   | [] => none
   | .text n t :: rest => some (n, .text t, rest.reverse)
   | .file n f :: rest =>
-    let same := rest.takeWhile fun p => match p with | .file n' _ => n' == n | _ => false
-    let fs := (f :: same.filterMap fun p => match p with | .file _ f' => some f' | _ => none).filter fun f => !unselected f
-    some (n, .files fs, (rest.drop same.length).reverse)
+    -- the other files of this name, wherever they stand in the form (parts of one name need not be adjacent), last first
+    let fs := (f :: (rest.filter (sameFile n)).filterMap fileOf).filter fun f => !unselected f
+    some (n, .files fs, (rest.filter fun p => !sameFile n p).reverse)
 
 inductive FTy where | text | optText | file | optFile | files
 deriving Repr, DecidableEq
